@@ -10,5 +10,4 @@ def model(name):
 
 a, b = Identifier(model("mass")), Identifier(model("galaxy_mass"))
 print(a.hash_list[3:8], b.hash_list[3:8])
-assert str(a) != str(b), "identifiers agree (defect repaired?)"
-print("VIOLATION: same model, different variable name ->", a, "!=", b)
+print("VIOLATION: same model, different variable name -> %s != %s" % (a, b) if str(a) != str(b) else "no violation: the identifiers agree (repaired in /repo, 7fa9036)")
